@@ -16,7 +16,7 @@ LEVEL_TEXT = {
     "C10": ("exploration", "Per-operation oracle: if the result fits the prior capacity then capacity()/data() are unchanged and the element registry shows zero events on the prefix; reserve/erase/clear rules; at most one allocate and one relocation per old element for calls that know their count.", "§4 C10"),
     "C11": ("exploration", "Metamorphic relation: an aliasing call must equal copy-then-call on the model, over generated (i, pos, n, state) with alias-heavy weights.", "§4 C11"),
     "C12": ("exploration", "Exhaustive enumeration for the 8-bit size_type (every size, operation, count/range length up to and beyond the numeric maximum, three positions) plus boundary grids and rapidcheck boundary-biased cases for 16/32-bit size_types and allocators with max_size()=1000, in an assert-enabled and an NDEBUG build: length_error, no effect, allocate(n) <= max_size(), size() <= max_size(), no wrapped arithmetic (ASan).", "§4 C12"),
-    "C13": ("exploration", "Differential: the same generated program runs on a non-trivial element type and on its trivially copyable twin; full observation traces (values, sizes, capacities, data() stability, allocate counts) must be identical; object canaries and ASan guard bytes outside storage.", "§4 C13"),
+    "C13": ("exploration", "Differential: the same generated program runs on a non-trivial element type and on its trivially copyable twin; full observation traces (values, sizes, capacities, data() stability, allocate counts) must be identical; object canaries and ASan guard bytes outside storage. Plus a converting-input differential (68 From->To pairs x 11 iterator kinds x operations, values vs static_cast and vs std::vector<To>, four builds) and compile probes over minimal-requirement archetypes (trivial twin must compile whenever the non-trivial one does).", "§4 C13"),
     "C14": ("exploration", "Growth probe on every reallocating listed call: new capacity >= required and >= 1.5x old unless saturated at max_size().", "§4 C14"),
     "C15": ("exploration", "Instrumented single-pass iterators (shared cursor) trap double dereference, skipped positions, stale copies and access at/past last; multi-pass iterators trap walking outside [first,last]; generator call log; result compared with the model.", "§4 C15"),
     "C16": ("exploration", "Exhaustive differential test against std::vector over all pairs of small contents x capacity pairs x four element types for ==, !=, <, <=, >, >= and <=>, with consistency laws, in four builds (g++/clang++ x C++17/C++20) whose verdict tables are cross-checked; non-member erase/erase_if/swap/accessors; rapidcheck contents beyond the bound.", "§4 C16"),
@@ -83,6 +83,7 @@ ENGINES = [
     {"name": "lim", "path": "harness/lim_main.cpp", "serves_properties": ["C12"], "kind_free_text": "narrow size_type / small max_size() allocators, exhaustive and boundary-biased enumeration"},
     {"name": "cmp", "path": "harness/cmp_main.cpp", "serves_properties": ["C16"], "kind_free_text": "comparison / non-member differential against std::vector, 4 toolchain builds"},
     {"name": "grid", "path": "vlib/grid.py (generates translation units)", "serves_properties": ["C18", "C19"], "kind_free_text": "generated TUs tabulating compile-time facts over configuration grids, oracle in Python"},
+    {"name": "conv", "path": "harness/conv_main.cpp, harness/archetypes.hpp, vlib/conv.py", "serves_properties": ["C13"], "kind_free_text": "converting-input differential against static_cast / std::vector and archetype compile probes"},
     {"name": "fault", "path": "harness/hist_main.cpp (fault mode)", "serves_properties": ["C05", "C06"],
      "kind_free_text": "prefix + operation under test, every fault point enumerated"},
 ]
